@@ -2,6 +2,7 @@
 //! in real time. Observations are made with sentinel requests and EOF probes; a failing case is
 //! re-run with doubled settling times before it is reported.
 
+pub mod c13;
 pub mod c15;
 
 use std::time::Duration;
@@ -23,6 +24,15 @@ pub fn rt(workers: usize) -> tokio::runtime::Runtime {
 /// Run a real-time case up to three times: a violation must reproduce with doubled settling
 /// times to be reported; a case that fails once and then passes is counted as a disturbance.
 pub fn retry3(mut f: impl FnMut(u32) -> CaseResult) -> CaseResult {
+    let debug = std::env::var("VERIF_DEBUG").is_ok();
+    let mut f = move |slow: u32| {
+        let t0 = std::time::Instant::now();
+        let r = f(slow);
+        if debug {
+            eprintln!("[net] run slow={} took {:?}: {:?}", slow, t0.elapsed(), r.as_ref().err());
+        }
+        r
+    };
     match f(1) {
         Ok(ok) => Ok(ok),
         Err(first) => match f(2) {
